@@ -341,6 +341,20 @@ func runSpec(sp Spec) J {
 	out["graphs"] = dump
 	// a sequence of statements on the same store: the earlier ones only warm whatever the store or the planner keeps
 	for _, pq := range sp.Pre {
+		if strings.HasPrefix(pq, "@add ") {
+			// "@add <graph> <triple>|<triple>...": triples added through the storage API, not through a BQL statement
+			f := strings.SplitN(pq[5:], " ", 2)
+			if gr, err := st.Graph(ctx, f[0]); err == nil && len(f) == 2 {
+				var ts []*triple.Triple
+				for _, line := range strings.Split(f[1], "|") {
+					if t, err := triple.Parse(line, literal.DefaultBuilder()); err == nil {
+						ts = append(ts, t)
+					}
+				}
+				gr.AddTriples(ctx, ts)
+			}
+			continue
+		}
 		if pstm, _ := parse(pq); pstm != nil {
 			execute(ctx, st, pstm, sp)
 		}
